@@ -101,6 +101,7 @@ pub fn hx_cfg_from_json(v: &Value) -> HxCfg {
     c.clone_swap = o["clone_swap"].as_bool().unwrap_or(false);
     c.reload_swap = o["reload_swap"].as_bool().unwrap_or(false);
     c.merges = serde_json::from_value(o["merges"].clone()).unwrap_or_default();
+    c.merge_fails = serde_json::from_value(o["merge_fails"].clone()).unwrap_or_default();
     c.track_returned = v["track_returned"].as_bool().unwrap_or(false);
     c
 }
